@@ -285,7 +285,7 @@ def generate(name, expanded_src=None):
                 ret = e.opts.get('ret')
                 rename = e.opts.get('as')
                 vis = '' if ' for ' in (' ' + e.impl + ' ') and e.impl not in ('-', '') else 'pub '
-                text, _ = rsx.normalise_fn(raw, cfg, rename=rename, ret_name=ret, vis=vis, revloops=e.opts.get('revloops'), lebytes=bool(e.opts.get('lebytes')), destruct=bool(e.opts.get('destruct')), localconst=bool(e.opts.get('localconst')), nestedret=e.opts.get('nestedret'))
+                text, _ = rsx.normalise_fn(raw, cfg, rename=rename, ret_name=ret, vis=vis, revloops=e.opts.get('revloops'), lebytes=bool(e.opts.get('lebytes')), destruct=bool(e.opts.get('destruct')), localconst=bool(e.opts.get('localconst')), nestedret=e.opts.get('nestedret'), fwdloops=e.opts.get('fwdloops'))
                 if e.trusted:
                     # signature + spec only; body replaced by unimplemented!()
                     toks = rsx.tokenize(text)
@@ -307,7 +307,7 @@ def generate(name, expanded_src=None):
                         woven = "#[verifier::exec_allows_no_decreases_clause] " + rsx.MARK + "\n" + woven
                     # erasure check
                     got = rsx.erase_tokens(woven)
-                    want_toks = rsx.source_tokens(raw, cfg, rename=rename, ret_name=ret, vis=vis, revloops=e.opts.get('revloops'), lebytes=bool(e.opts.get('lebytes')), destruct=bool(e.opts.get('destruct')), localconst=bool(e.opts.get('localconst')), nestedret=e.opts.get('nestedret'))
+                    want_toks = rsx.source_tokens(raw, cfg, rename=rename, ret_name=ret, vis=vis, revloops=e.opts.get('revloops'), lebytes=bool(e.opts.get('lebytes')), destruct=bool(e.opts.get('destruct')), localconst=bool(e.opts.get('localconst')), nestedret=e.opts.get('nestedret'), fwdloops=e.opts.get('fwdloops'))
                     if got != want_toks:
                         u.erasure_ok = False
                         # find first difference
